@@ -264,6 +264,13 @@ class Check:
                     if ev["events"] > 10 * cref["events"] + 1000:
                         mms.append(compare.mm("slow_after_fault", f"<= 10 x {cref['events']} call events", ev["events"]))
             if op["op"] == "group" and ev.get("outcome") == "ok" and not compare.own_outcome_exempt(op, ev):
+                for dname, ddig in ev.get("obs", {}).get("dets", []):
+                    dref = self.refs.refs.get(("group", op["canon"], dname))
+                    if dref is None or dref.get("outcome") != "ok":
+                        continue
+                    want_d = [d for n, d in dref.get("obs", {}).get("dets", []) if n == dname]
+                    if want_d and want_d[0] != ddig:
+                        mms.append(compare.mm("gdet:" + dname, want_d[0], ddig))
                 for fkey, path in sorted(op["paths"].items()):
                     bref = self.refs.refs.get(("build", op["cmap"][fkey.split("/")[0]], tuple(path)))
                     got = ev.get("obs", {}).get("functions", {}).get(fkey)
